@@ -5,10 +5,42 @@
 
 package types
 
+import (
+	"context"
+
+	"github.com/hashicorp/nodeenrollment"
+)
+
 // lemmaKeyAgreement: the node side and the server side of one key agreement
 // derive the same key id and the same shared secret.
 func lemmaKeyAgreement(node *NodeCredentials, server *NodeInformation) (nid string, nkey []byte, nerr error, sid string, skey []byte, serr error) {
 	nid, nkey, nerr = node.X25519EncryptionKey()
 	sid, skey, serr = server.X25519EncryptionKey()
 	return
+}
+
+// lemmaNodeInfoStoreLoad: loading with the options used for storing returns what was stored.
+func lemmaNodeInfoStoreLoad(ctx context.Context, storage nodeenrollment.Storage, n *NodeInformation, opt ...nodeenrollment.Option) (out *NodeInformation, serr, lerr error) {
+	serr = n.Store(ctx, storage, opt...)
+	if serr != nil {
+		return nil, serr, nil
+	}
+	out, lerr = LoadNodeInformation(ctx, storage, n.Id, opt...)
+	return out, nil, lerr
+}
+
+// lemmaNodeInfoTransplant: a sealed server key that was sealed for a different
+// record (different additional data) does not open.
+func lemmaNodeInfoTransplant(ctx context.Context, storage nodeenrollment.Storage, id string, opt ...nodeenrollment.Option) (out *NodeInformation, err error) {
+	return LoadNodeInformation(ctx, storage, id, opt...)
+}
+
+// lemmaNodeCredsStoreLoad: same round trip for node credentials.
+func lemmaNodeCredsStoreLoad(ctx context.Context, storage nodeenrollment.Storage, n *NodeCredentials, opt ...nodeenrollment.Option) (out *NodeCredentials, serr, lerr error) {
+	serr = n.Store(ctx, storage, opt...)
+	if serr != nil {
+		return nil, serr, nil
+	}
+	out, lerr = LoadNodeCredentials(ctx, storage, nodeenrollment.KnownId(n.Id), opt...)
+	return out, nil, lerr
 }
